@@ -9,6 +9,7 @@
 //   route HOST1 HOST2 LINK[,LINK...]                           (symmetrical)
 //   profile KIND RES str PERIODICITY  + text lines + "endprofile"      KIND: speed hstate bw lat lstate
 //   profile KIND RES file PATH
+//   xml PATH                                                   load the whole platform (hosts, links, routes, *_file profiles) from an XML file instead
 //   actor NAME HOST + op lines + "endactor"
 // ops: until T | sleepfor D | yield | sample | energy
 //      exec ID HOST FLOPS BOUND PRIO THREADS          (blocking; BOUND<=0: none)
@@ -22,8 +23,10 @@
 //   E actor clock NAME=joules ...                              'energy' op (hosts with a wattage_per_state, all links if link_energy)
 //   XS id clock host / XE id clock status start_time finish_time                      start / end of an exec as seen by the issuing actor (status ok|hostfail|canceled)
 //   AX start|end name clock                                    Exec::on_start_cb / on_completion_cb
+//   AC end name clock                                          Comm::on_completion_cb
 //   CS id clock / CE id clock status                           comm start / end (status ok|netfail)
 //   OP actor clock op...                                       control ops (pstate/off/on/suspend/...) when executed
+//   EF clock NAME=joules ...                                   same as E, read by maestro after Engine::run() returned
 //   END clock
 #include <simgrid/Exception.hpp>
 #include <simgrid/kernel/ProfileBuilder.hpp>
@@ -32,6 +35,7 @@
 #include <cstdio>
 #include <iostream>
 #include <map>
+#include <set>
 #include <sstream>
 #include <vector>
 namespace sg4 = simgrid::s4u;
@@ -41,18 +45,47 @@ static std::vector<sg4::Link*> links;
 static std::vector<sg4::Host*> ehosts; // hosts with an energy profile
 static bool with_link_energy = false;
 static bool with_load        = true; // Host::get_load() dereferences a null constraint under cpu/optim:TI
+static bool avail_only_profiled = false; // under cpu/optim:TI Host::get_available_speed() crashes on a host without speed profile
+static std::set<std::string> speed_profiled;
 static std::map<std::string, sg4::ExecPtr> execs;
 static std::map<std::string, sg4::CommPtr> comms;
 
 static void print_state()
 {
   for (auto const* h : hosts)
-    printf(" h %s %.17g %.17g %d %lu %.17g", h->get_cname(), h->get_speed(), h->get_available_speed(), h->is_on() ? 1 : 0,
-           h->get_pstate(), with_load ? h->get_load() : -1.0);
+    printf(" h %s %.17g %.17g %d %lu %.17g", h->get_cname(), h->get_speed(),
+           (avail_only_profiled && speed_profiled.count(h->get_name()) == 0) ? -1.0 : h->get_available_speed(),
+           h->is_on() ? 1 : 0, h->get_pstate(), with_load ? h->get_load() : -1.0);
   for (auto const* l : links)
     printf(" l %s %.17g %.17g %d %.17g", l->get_cname(), l->get_bandwidth(), l->get_latency(), l->is_on() ? 1 : 0,
            l->get_load());
   printf("\n");
+}
+
+static std::map<std::string, sg4::ActorPtr> helpers;
+
+static void wait_exec(const std::string& id, sg4::ExecPtr x)
+{
+  const char* st = "ok";
+  try {
+    x->wait();
+  } catch (const simgrid::HostFailureException&) {
+    st = "hostfail";
+  } catch (const simgrid::CancelException&) {
+    st = "canceled";
+  }
+  printf("XE %s %.17g %s %.17g %.17g\n", id.c_str(), sg4::Engine::get_clock(), st, x->get_start_time(), x->get_finish_time());
+}
+
+static void wait_comm(const std::string& id, sg4::CommPtr c)
+{
+  const char* st = "ok";
+  try {
+    c->wait();
+  } catch (const simgrid::NetworkFailureException&) {
+    st = "netfail";
+  }
+  printf("CE %s %.17g %s %.17g %.17g\n", id.c_str(), sg4::Engine::get_clock(), st, c->get_start_time(), c->get_finish_time());
 }
 
 struct Op {
@@ -104,8 +137,11 @@ static void run_actor(const std::string& me, const std::vector<Op>& ops)
         x->set_thread_count(threads);
       printf("XS %s %.17g %s\n", t[1].c_str(), sg4::Engine::get_clock(), h->get_cname());
       if (k == "xstart") {
+        // asynchronous: a helper actor blocks on the activity so that the date of its end (or failure) is observed exactly
         x->start();
-        execs[t[1]] = x;
+        execs[t[1]]   = x;
+        std::string id = t[1];
+        helpers[id]   = sg4::this_actor::get_host()->add_actor("wait_" + id, [id, x]() { wait_exec(id, x); });
       } else {
         const char* st = "ok";
         try {
@@ -118,18 +154,8 @@ static void run_actor(const std::string& me, const std::vector<Op>& ops)
         printf("XE %s %.17g %s %.17g %.17g\n", t[1].c_str(), sg4::Engine::get_clock(), st, x->get_start_time(),
                x->get_finish_time());
       }
-    } else if (k == "xwait") {
-      auto x         = execs.at(t[1]);
-      const char* st = "ok";
-      try {
-        x->wait();
-      } catch (const simgrid::HostFailureException&) {
-        st = "hostfail";
-      } catch (const simgrid::CancelException&) {
-        st = "canceled";
-      }
-      printf("XE %s %.17g %s %.17g %.17g\n", t[1].c_str(), sg4::Engine::get_clock(), st, x->get_start_time(),
-             x->get_finish_time());
+    } else if (k == "xwait" || k == "cwait") {
+      helpers.at(t[1])->join();
     } else if (k == "xsuspend" || k == "xresume" || k == "xcancel" || k == "xmigrate") {
       auto x = execs.at(t[1]);
       printf("OP %s %.17g %s %s %s\n", me.c_str(), sg4::Engine::get_clock(), k.c_str(), t[1].c_str(),
@@ -151,7 +177,9 @@ static void run_actor(const std::string& me, const std::vector<Op>& ops)
       printf("CS %s %.17g\n", t[1].c_str(), sg4::Engine::get_clock());
       if (k == "cstart") {
         c->start();
-        comms[t[1]] = c;
+        comms[t[1]]   = c;
+        std::string id = t[1];
+        helpers[id]   = sg4::this_actor::get_host()->add_actor("wait_" + id, [id, c]() { wait_comm(id, c); });
       } else {
         const char* st = "ok";
         try {
@@ -162,16 +190,6 @@ static void run_actor(const std::string& me, const std::vector<Op>& ops)
         printf("CE %s %.17g %s %.17g %.17g\n", t[1].c_str(), sg4::Engine::get_clock(), st, c->get_start_time(),
                c->get_finish_time());
       }
-    } else if (k == "cwait") {
-      auto c         = comms.at(t[1]);
-      const char* st = "ok";
-      try {
-        c->wait();
-      } catch (const simgrid::NetworkFailureException&) {
-        st = "netfail";
-      }
-      printf("CE %s %.17g %s %.17g %.17g\n", t[1].c_str(), sg4::Engine::get_clock(), st, c->get_start_time(),
-             c->get_finish_time());
     } else if (k == "pstate" || k == "off" || k == "on") {
       auto* h = sg4::Host::by_name(t[1]);
       printf("OP %s %.17g %s %s %s\n", me.c_str(), sg4::Engine::get_clock(), k.c_str(), t[1].c_str(),
@@ -216,6 +234,8 @@ int main(int argc, char** argv)
       trace_time = false;
     else if (std::string(argv[i]) == "--no-load")
       with_load = false;
+    else if (std::string(argv[i]) == "--avail-only-profiled")
+      avail_only_profiled = true;
 
   std::vector<std::string> lines;
   std::string line;
@@ -231,6 +251,23 @@ int main(int argc, char** argv)
       with_link_energy = true;
     }
   }
+  // signals first: the points at date 0 of an XML platform are applied while the platform is loaded
+  sg4::Host::on_speed_change_cb([](sg4::Host const& h) {
+    printf("CB %.17g hspeed %s %.17g %.17g %lu\n", sg4::Engine::get_clock(), h.get_cname(), h.get_speed(),
+           h.get_available_speed(), h.get_pstate());
+  });
+  sg4::Host::on_onoff_cb(
+      [](sg4::Host const& h) { printf("CB %.17g honoff %s %d\n", sg4::Engine::get_clock(), h.get_cname(), h.is_on() ? 1 : 0); });
+  sg4::Link::on_bandwidth_change_cb(
+      [](sg4::Link const& l) { printf("CB %.17g lbw %s %.17g\n", sg4::Engine::get_clock(), l.get_cname(), l.get_bandwidth()); });
+  sg4::Link::on_onoff_cb(
+      [](sg4::Link const& l) { printf("CB %.17g lonoff %s %d\n", sg4::Engine::get_clock(), l.get_cname(), l.is_on() ? 1 : 0); });
+  sg4::Exec::on_start_cb(
+      [](sg4::Exec const& x) { printf("AX start %s %.17g\n", x.get_cname(), sg4::Engine::get_clock()); });
+  sg4::Exec::on_completion_cb(
+      [](sg4::Exec const& x) { printf("AX end %s %.17g\n", x.get_cname(), sg4::Engine::get_clock()); });
+  sg4::Comm::on_completion_cb(
+      [](sg4::Comm const& c) { printf("AC end %s %.17g\n", c.get_cname(), sg4::Engine::get_clock()); });
   auto* zone = e.get_netzone_root();
   std::map<std::string, sg4::Host*> hmap;
   std::map<std::string, sg4::Link*> lmap;
@@ -244,7 +281,8 @@ int main(int argc, char** argv)
     std::vector<std::string> ls;
   };
   std::vector<Route> routes;
-  int nprof = 0;
+  int nprof     = 0;
+  bool from_xml = false;
   for (size_t i = 0; i < lines.size(); i++) {
     std::istringstream is(lines[i]);
     std::vector<std::string> t;
@@ -253,7 +291,22 @@ int main(int argc, char** argv)
       t.push_back(tok);
     if (t.empty() || t[0] == "plugin")
       continue;
-    if (t[0] == "host") {
+    if (t[0] == "xml") {
+      e.load_platform(t[1]);
+      zone = e.get_netzone_root();
+      from_xml = true;
+      for (auto* h : e.get_all_hosts()) {
+        hmap[h->get_name()] = h;
+        hosts.push_back(h);
+        if (h->get_property("wattage_per_state") != nullptr)
+          ehosts.push_back(h);
+      }
+      for (auto* l : e.get_all_links())
+        if (l->get_name() != "__loopback__") {
+          lmap[l->get_name()] = l;
+          links.push_back(l);
+        }
+    } else if (t[0] == "host") {
       std::vector<double> speeds;
       for (auto const& s : split(t[3], ','))
         speeds.push_back(std::stod(s));
@@ -293,8 +346,10 @@ int main(int argc, char** argv)
         p = simgrid::kernel::profile::ProfileBuilder::from_string("p" + std::to_string(nprof++) + "_" + t[2], text,
                                                                     std::stod(t[4]));
       }
-      if (t[1] == "speed")
+      if (t[1] == "speed") {
         hmap.at(t[2])->set_speed_profile(p);
+        speed_profiled.insert(t[2]);
+      }
       else if (t[1] == "hstate")
         hmap.at(t[2])->set_state_profile(p);
       else if (t[1] == "bw")
@@ -319,30 +374,18 @@ int main(int argc, char** argv)
       return 3;
     }
   }
-  for (auto* l : links)
-    l->seal();
-  for (auto const& r : routes) {
-    std::vector<const sg4::Link*> ls;
-    for (auto const& n : r.ls)
-      ls.push_back(lmap.at(n));
-    zone->add_route(hmap.at(r.a), hmap.at(r.b), ls);
+  if (not from_xml) {
+    for (auto* l : links)
+      l->seal();
+    for (auto const& r : routes) {
+      std::vector<const sg4::Link*> ls;
+      for (auto const& n : r.ls)
+        ls.push_back(lmap.at(n));
+      zone->add_route(hmap.at(r.a), hmap.at(r.b), ls);
+    }
+    zone->seal();
   }
-  zone->seal();
 
-  sg4::Host::on_speed_change_cb([](sg4::Host const& h) {
-    printf("CB %.17g hspeed %s %.17g %.17g %lu\n", sg4::Engine::get_clock(), h.get_cname(), h.get_speed(),
-           h.get_available_speed(), h.get_pstate());
-  });
-  sg4::Host::on_onoff_cb(
-      [](sg4::Host const& h) { printf("CB %.17g honoff %s %d\n", sg4::Engine::get_clock(), h.get_cname(), h.is_on() ? 1 : 0); });
-  sg4::Link::on_bandwidth_change_cb(
-      [](sg4::Link const& l) { printf("CB %.17g lbw %s %.17g\n", sg4::Engine::get_clock(), l.get_cname(), l.get_bandwidth()); });
-  sg4::Link::on_onoff_cb(
-      [](sg4::Link const& l) { printf("CB %.17g lonoff %s %d\n", sg4::Engine::get_clock(), l.get_cname(), l.is_on() ? 1 : 0); });
-  sg4::Exec::on_start_cb(
-      [](sg4::Exec const& x) { printf("AX start %s %.17g\n", x.get_cname(), sg4::Engine::get_clock()); });
-  sg4::Exec::on_completion_cb(
-      [](sg4::Exec const& x) { printf("AX end %s %.17g\n", x.get_cname(), sg4::Engine::get_clock()); });
   if (trace_time)
     sg4::Engine::on_time_advance_cb([](double) {
       printf("T %.17g", sg4::Engine::get_clock());
@@ -355,8 +398,18 @@ int main(int argc, char** argv)
   printf("START");
   print_state();
   e.run();
+  if (not ehosts.empty() || with_link_energy) {
+    printf("EF %.17g", sg4::Engine::get_clock());
+    for (auto const* h : ehosts)
+      printf(" %s=%.17g", h->get_cname(), sg_host_get_consumed_energy(h));
+    if (with_link_energy)
+      for (auto const* l : links)
+        printf(" %s=%.17g", l->get_cname(), sg_link_get_consumed_energy(l));
+    printf("\n");
+  }
   printf("END %.17g\n", sg4::Engine::get_clock());
   execs.clear();
   comms.clear();
+  helpers.clear();
   return 0;
 }
